@@ -57,6 +57,8 @@ pub fn exec_array(scn: &Scenario, prop: Prop) -> RunResult {
         ElemTy::OptU8 => exec_nan::<Option<u8>>(scn, prop),
         ElemTy::Keyed => exec_ord::<Keyed>(scn, prop),
         ElemTy::OptN64 => exec_nan::<Option<N64>>(scn, prop),
+        ElemTy::Boxed => exec_ord::<Boxed>(scn, prop),
+        ElemTy::Fat => exec_ord::<Fat>(scn, prop),
     }
 }
 
@@ -91,7 +93,7 @@ pub struct BatchOutcome {
     pub stopped_early: bool,
 }
 
-pub const CHUNK: u64 = 4096;
+pub const CHUNK: u64 = 16384;
 pub const WATCHDOG_SECS: u64 = 60;
 
 /// slots the crash handler and the watchdog read: current run index + 1 per worker (0 = idle)
@@ -113,6 +115,7 @@ pub fn run_batch(prop: Prop, tier: Tier, seed: u64, runs: u64, threads: usize, m
     // watchdog state: per worker (run idx, start time)
     let starts: Vec<Mutex<Option<(u64, Instant)>>> = (0..threads).map(|_| Mutex::new(None)).collect();
     let done = AtomicBool::new(false);
+    let slow_report = std::env::var("SIMCTL_SLOW").is_ok();
     std::thread::scope(|sc| {
         // watchdog: a run that neither finishes nor draws entropy cannot be unwound
         sc.spawn(|| {
@@ -135,7 +138,7 @@ pub fn run_batch(prop: Prop, tier: Tier, seed: u64, runs: u64, threads: usize, m
             let wid = AtomicUsize::new(0);
             std::thread::scope(|s2| {
                 for _ in 0..threads {
-                    s2.spawn(|| {
+                    let _ = std::thread::Builder::new().stack_size(crate::util::BIG_STACK).spawn_scoped(s2, || {
                         let me = wid.fetch_add(1, Ordering::Relaxed);
                         let mut bs = BatchStats::new();
                         let mut fs = vec![];
@@ -153,7 +156,11 @@ pub fn run_batch(prop: Prop, tier: Tier, seed: u64, runs: u64, threads: usize, m
                             CURRENT[me].store(i + 1, Ordering::Relaxed);
                             *starts[me].lock().unwrap() = Some((i, Instant::now()));
                             let scn = generate(prop, seed, i, tier);
+                            let t_run = Instant::now();
                             let r = scn.exec(prop);
+                            if slow_report && t_run.elapsed().as_millis() > 200 {
+                                eprintln!("SLOW run={} ms={}", i, t_run.elapsed().as_millis());
+                            }
                             if i % 50 == 0 {
                                 rc += 1;
                                 let r2 = generate(prop, seed, i, tier).exec(prop);
